@@ -70,6 +70,7 @@ def main(names):
     v, d, tg, tb = build()
     print("%-44s %-12s %s   [regenerate %.2fs, bridge build %.1fs]" % ("(unchanged source)", v, d, tg, tb))
     rows = []
+    bad = 0
     for p in sorted(glob.glob(os.path.join(PATCHES, "*.patch"))):
         name = os.path.basename(p)[:-6]
         if names and name not in names:
@@ -77,16 +78,20 @@ def main(names):
         rc, out = sh("git apply %s" % p, cwd=REPO)
         if rc != 0:
             print("%-44s PATCH DOES NOT APPLY: %s" % (name, out.strip()[:200]))
+            bad += 1
             continue
         try:
             v, d, tg, tb = build()
         finally:
             sh("git checkout -- .", cwd=REPO)
-        kind = open(p).readline().strip()
+        kind = open(p).readline().split(":")[0].split()[0]
+        ok = (v == "nothing") == (kind == "harmless")
+        bad += 0 if ok else 1
         rows.append((name, kind, v, d))
-        print("%-44s %-12s %s   [regenerate %.2fs, bridge build %.1fs]" % (name, v, d[:300], tg, tb))
+        print("%-44s %-9s %-12s %s   [regenerate %.2fs, bridge build %.1fs]%s"
+              % (name, kind, v, d[:300], tg, tb, "" if ok else "   <-- UNEXPECTED"))
     build()
-    return 0
+    return 1 if bad else 0
 
 
 if __name__ == "__main__":
